@@ -1,6 +1,7 @@
 #!/bin/bash
 # tools/mutant.sh <prop> <file> <sed-expr>  : apply a one-line edit to /repo, run the quick check, revert.
 P=$1; F=$2; E=$3
+if [ -n "$(git -C /repo status --porcelain)" ]; then echo "refusing: /repo has uncommitted changes"; exit 4; fi
 cd /repo && sed -i "$E" "$F" && git diff --stat | head -3
 if git diff --quiet; then echo "MUTANT DID NOT APPLY"; exit 3; fi
 cd /verif && ./bin/govc check -prop $P -no-evidence 2>&1 | grep -E "^FAILED|^govc:|KNOWN|^VIOLATION" | cut -c1-220
